@@ -273,6 +273,10 @@ func Generate(rng *rand.Rand, prop, tier string, gomaxprocs int) *Desc {
 			}
 			s.Emitter = false
 			errRate, goexitRate = 0, rng.Intn(2)*2
+			if rng.Intn(25) == 0 {
+				// more than 2^16 jobs through one and the same worker goroutine
+				s.N, nj, goexitRate = 1, 1<<16+500+rng.Intn(2000), 0
+			}
 			s.COE = true
 			cancelP = 1 << 30
 			edgeP = 40
